@@ -15,7 +15,9 @@
 //   J                         JitRuntime::_add(&p, &code) (flatten + relocate + copy into executable memory), then the
 //                             first code_size() bytes at p are read back and p is released                -> "J:ok:<size>:<rle>" | "J:<err>"
 //   K addr len                x86-64 assembler: call <absolute addr> into .text (address-table entry)  -> "K:<err>:<text size>"
+//   G id add clr              Section::add_flags(add); clear_flags(clr)                                  -> "G:<flags>:<has_flag(clr)>"
 //   E id                      label bound at the end of section id; embed_label(label) into .text (RelocType::kRelToAbs) -> "E:<err>:<text size>:<label offset>"
+//   ED id1 id2 size           embed_label_delta(label at end of id1, label at end of id2, size) into .text (RelocType::kExpression) -> "ED:<err>:<text size>:<o1>:<o2>"
 //   X base used               relocate_to_base(base, &summary)                                         -> "X:<err>:<reduction>"
 #include <asmjit/core.h>
 #include <asmjit/x86.h>
@@ -208,7 +210,22 @@ int main() {
         if (e == Error::kOk && p && near_target) { emit("J:near"); rt._release(p); }
         else if (e == Error::kOk && p) {
           size_t n = code.code_size();
-          emit(std::string("J:ok:") + std::to_string(n) + ":" + rle(static_cast<const uint8_t*>(p), n));
+          // the image is made independent of where the allocator put it: every kRelToAbs word (the relocation list says where
+          // they are) has the base subtracted again; address-table calls are out of rel32 reach (checked above), expressions
+          // do not depend on the base
+          std::vector<uint8_t> img(static_cast<const uint8_t*>(p), static_cast<const uint8_t*>(p) + n);
+          for (const RelocEntry* re : code.reloc_entries()) {
+            if (re->reloc_type() != RelocType::kRelToAbs) continue;
+            Section* src = code.section_by_id(re->source_section_id());
+            size_t at = size_t(src->offset()) + size_t(re->source_offset()) + re->format().value_offset();
+            size_t vs = re->format().value_size();
+            if (at + vs > n || vs > 8) continue;
+            uint64_t w = 0;
+            for (size_t k = 0; k < vs; k++) w |= uint64_t(img[at + k]) << (8 * k);
+            w -= uint64_t(uintptr_t(p));
+            for (size_t k = 0; k < vs; k++) img[at + k] = uint8_t(w >> (8 * k));
+          }
+          emit(std::string("J:ok:") + std::to_string(n) + ":" + rle(img.data(), n));
           rt._release(p);
         }
         else emit(std::string("J:") + err_name(e));
@@ -219,6 +236,16 @@ int main() {
         Error e = as->call(Imm(addr));
         call_targets.push_back(addr);
         snprintf(tmp, sizeof(tmp), "K:%s:%zu", err_name(e), code.text_section()->buffer_size());
+        emit(tmp);
+      }
+      else if (op == "G") {
+        // section flags: add_flags(add) then clear_flags(clr); answers the 16-bit flag word and has_flag(clr)
+        uint32_t id, add, clr; in >> id >> add >> clr;
+        if (!code.is_section_valid(id)) { emit("G:bad"); continue; }
+        Section* sec = code.section_by_id(id);
+        sec->add_flags(SectionFlags(add));
+        sec->clear_flags(SectionFlags(clr));
+        snprintf(tmp, sizeof(tmp), "G:%u:%d", unsigned(sec->flags()), int(sec->has_flag(SectionFlags(clr))));
         emit(tmp);
       }
       else if (op == "E") {
@@ -234,6 +261,23 @@ int main() {
         if (e == Error::kOk) e = as->section(code.text_section());
         if (e == Error::kOk) e = as->embed_label(L);
         snprintf(tmp, sizeof(tmp), "E:%s:%zu:%" PRIu64, err_name(e), code.text_section()->buffer_size(), loff);
+        emit(tmp);
+      }
+      else if (op == "ED") {
+        // embed_label_delta: (label at the end of section id1) - (label at the end of section id2) as a `size`-byte value in .text
+        uint32_t id1, id2, size; in >> id1 >> id2 >> size;
+        if (!code.is_section_valid(id1) || !code.is_section_valid(id2) || fabricated_huge) { emit("ED:bad"); continue; }
+        if (!as) { as = new x86::Assembler(&code); }
+        Label L1 = as->new_label(), L2 = as->new_label();
+        Error e = as->section(code.section_by_id(id1));
+        uint64_t o1 = as->offset();
+        if (e == Error::kOk) e = as->bind(L1);
+        if (e == Error::kOk) e = as->section(code.section_by_id(id2));
+        uint64_t o2 = as->offset();
+        if (e == Error::kOk) e = as->bind(L2);
+        if (e == Error::kOk) e = as->section(code.text_section());
+        if (e == Error::kOk) e = as->embed_label_delta(L1, L2, size);
+        snprintf(tmp, sizeof(tmp), "ED:%s:%zu:%" PRIu64 ":%" PRIu64, err_name(e), code.text_section()->buffer_size(), o1, o2);
         emit(tmp);
       }
       else if (op == "X") {
